@@ -18,6 +18,9 @@ func genTqCase(r *Rng, c *Ctx, prop string) tqCase {
 		maxN = 14
 	}
 	tc := tqCase{N: 1 + r.Intn(maxN), MaxRetries: Pick(r, []int{1, 2, 3, 8}), MaxDelay: Pick(r, []int{0, 0, 1, 1, -1}), Upload: r.Chance(35), Workers: Pick(r, []int{1, 1, 2, 3, 4, 8})}
+	if tc.MaxDelay < 0 && tc.MaxRetries > 3 {
+		tc.MaxRetries = 3 // with the default cap of 10 s eight retries may rightly wait for most of a minute
+	}
 	tc.BatchSize = Pick(r, []int{1, 2, tc.N, tc.N + 1, 100, 3})
 	if tc.BatchSize < 1 {
 		tc.BatchSize = 1
